@@ -687,7 +687,7 @@ def _run(ck: Check):
 
     # ---- (c) the property's own oracle on the implementation: always run
     thorough = ck.thorough()
-    budget = (780 if thorough else 62) - (time.time() - t_start)
+    budget = (780 if thorough else 80) - (time.time() - t_start)
     t0 = time.time()
     # hard stop for implementation evaluations, findings or not: what was found so far is reported
     DEADLINE[0] = t_start + (870 if thorough else 125)
